@@ -20,6 +20,8 @@ type MTPlan struct {
 	QCap       int     `json:"qcap,omitempty"`        // capacity of the clearance queues (0: as shipped, GOMAXPROCS*100)
 	EarlyStop  bool    `json:"early_stop,omitempty"`  // Shutdown is called while microtasks are still running
 	StopSubmit bool    `json:"stop_submit,omitempty"` // the module's stop routine runs a microtask itself
+	PrepMT     int     `json:"prep_mt,omitempty"`     // the module's prep routine starts a high-priority microtask of duration mtDur[PrepMT] that is still running when the module starts
+	ErrCh      int     `json:"err_ch,omitempty"`      // 1: an error reporting channel without buffer that nobody reads, 2: one with room for a single report (reports are documented to be dropped when the receiver is busy)
 }
 
 // MTSub is one microtask submission.
@@ -48,6 +50,12 @@ func genMT(rng *rand.Rand, tier string) *MTPlan {
 	}
 	p.EarlyStop = rng.IntN(5) == 0
 	p.StopSubmit = rng.IntN(4) == 0
+	if rng.IntN(5) == 0 {
+		p.PrepMT = 2 + rng.IntN(3)
+	}
+	if rng.IntN(4) == 0 {
+		p.ErrCh = 1 + rng.IntN(2)
+	}
 	var kinds []string
 	for _, k := range mtKinds {
 		if rng.IntN(3) != 0 {
@@ -95,6 +103,7 @@ type mtState struct {
 	subT                   []time.Duration // when each submission was made
 	startT                 []time.Duration // when its function began
 	stopRan                int             // executions of the microtask the stop routine runs
+	prepRan, prepEnded     int             // executions of the microtask the prep routine starts
 	stopRet                error
 	stopRetSet             bool
 	lastEndT               time.Duration // when the last microtask function returned
@@ -133,7 +142,32 @@ func execMT(p *MTPlan, rc *simkit.RunCtx) {
 	}
 	s.subT = make([]time.Duration, len(p.Subs))
 	s.startT = make([]time.Duration, len(p.Subs))
-	s.m = modules.Register("m00", nil, func() error { return nil }, func() error {
+	switch p.ErrCh {
+	case 1:
+		modules.SetErrorReportingChannel(make(chan *modules.ModuleError))
+		rc.Probe("error-channel-nobody-reads")
+	case 2:
+		modules.SetErrorReportingChannel(make(chan *modules.ModuleError, 1))
+		rc.Probe("error-channel-nobody-reads")
+	}
+	var prep func() error
+	if p.PrepMT > 0 {
+		prep = func() error {
+			s.m.StartHighPriorityMicroTask("from-prep", func(ctx context.Context) error {
+				s.prepRan++
+				s.runHigh++
+				time.Sleep(mtDur[p.PrepMT%len(mtDur)])
+				s.runHigh--
+				s.prepEnded++
+				if now := simrt.Now(); now > s.lastEndT {
+					s.lastEndT = now
+				}
+				return nil
+			})
+			return nil
+		}
+	}
+	s.m = modules.Register("m00", prep, func() error { return nil }, func() error {
 		if p.StopSubmit {
 			// a microtask run from the stop routine: executed once (with a cancelled context), its error handed back
 			s.stopRet = s.m.RunMicroTask("from-stop", time.Hour, func(ctx context.Context) error {
@@ -391,6 +425,13 @@ func checkMT(p *MTPlan, rc *simkit.RunCtx) {
 			return
 		}
 		rc.Probe("microtask-from-stop-routine")
+	}
+	if p.PrepMT > 0 && (s.prepRan != 1 || (s.prepEnded != 1 && !s.earlyStopDone)) {
+		rc.Fail("C15.exactly-once", "a microtask started by the module's prep routine was not executed exactly once", fmt.Sprintf("%d executions, %d returns", s.prepRan, s.prepEnded))
+		return
+	}
+	if p.PrepMT > 0 {
+		rc.Probe("microtask-across-module-start")
 	}
 	if s.earlyStopDone {
 		// stopped while microtasks were running: the stop is over right after the last of them returned
